@@ -1,17 +1,16 @@
 CONSTANTS
   Nodes = {1, 2, 3}
   Writers = {1, 2}
-  MaxSect = 2
-  MaxVer = 5
-  DropBudget = 0
+  MaxSect = 1
+  MaxVer = 4
+  DropBudget = 1
   DupBudget = 0
   Filter = TRUE
-  ValueEq = FALSE
+  ValueEq = TRUE
   SoloTries = 2
   SplitPC = FALSE
-  CommitRetry = TRUE
-INIT Init
-NEXT Next
-VIEW view
-INVARIANTS Released
+  CommitRetry = FALSE
+INIT RInit
+NEXT RNext
+INVARIANTS SoloProgress
 CHECK_DEADLOCK FALSE
